@@ -14,7 +14,7 @@ def run(tier, seed):
     steady = dict(clauses_for=lambda cfg: ["C06_Steady"], n_quick=4, n_thorough=40, gen_kw=[{}],
                   generator=maxdrive.gen, observe=maxdrive.observe)
     return opscheck.run_property(
-        "C06", tier, seed, design=opscheck.design_ops("C06", None), clauses_for=lambda cfg: CLAUSES, extra_configs=opsdrive.systematic_configs(), n_quick=18, n_thorough=150,
+        "C06", tier, seed, design=opscheck.design_ops("C06", None), clauses_for=lambda cfg: CLAUSES, extra_configs=opsdrive.systematic_configs() + opsdrive.large_configs(), n_quick=18, n_thorough=150,
         gen_kw=[{}, {"nmax": 2}], extra_conform=[], parts=[steady],
         rule="9 grid classes x seeded spacings / D fields / velocity sign patterns; row sums of every advection-"
              "diffusion matrix against the code's own divergence of u; source terms entrywise")
